@@ -52,4 +52,73 @@ end
 /-- the Boolean matrix of a list of (row, col) entries (`sp.csr_matrix((True…, (rows, cols)))`) -/
 def incOfPairs (ps : List (Nat × Nat)) (i j : Nat) : Bool := ps.contains (i, j)
 
+/-! ### calls and histories
+
+Python hands the data array, the `weight=` array and the `incidence=` matrix to `convert_elemental2nodal` BY REFERENCE, and
+the same objects are typically used for many conversions ("compute the incidence once, convert many fields").  A call is
+therefore modelled as the caller sees it: the returned column AND the argument objects as they are afterwards.  femio's
+conversion is a function of (incidence, weights, data): it builds new matrices (`multiply`, `dot`) and returns its arguments
+unchanged.  `I` is the representation of the incidence object, `rel` reads it as a Boolean relation (`incOfPairs` for a list
+of stored entries; the driver uses row-wise adjacency lists). -/
+
+/-- the `mode=` argument -/
+inductive ConvMode
+  | mean | effective
+  deriving DecidableEq, Repr
+
+/-- the argument objects of one call: `incidence=`, `weight=` (one size per element; all ones for `weight=False`) and one
+column of `elemental_data` -/
+structure ConvArgs (I R : Type) where
+  inc : I
+  weights : List R
+  data : List R
+
+section
+variable {I R : Type} [Zero R] [One R] [Add R] [Mul R] [Div R] [NatCast R]
+
+/-- the value returned for node position `i` -/
+def e2nValue (rel : I → Nat → Nat → Bool) (n e : Nat) (mode : ConvMode) (a : ConvArgs I R) (i : Nat) : R :=
+  match mode with
+  | .mean => e2nMean e (rel a.inc) (fun j => a.weights.getD j 0) (fun j => a.data.getD j 0) i
+  | .effective => e2nEffective n e (rel a.inc) (fun j => a.data.getD j 0) i
+
+/-- one call of `convert_elemental2nodal` (one column): the returned column (one value per node position) and the argument
+objects afterwards -/
+def e2nCall (rel : I → Nat → Nat → Bool) (n e : Nat) (mode : ConvMode) (a : ConvArgs I R) : List R × ConvArgs I R :=
+  ((List.range n).map (e2nValue rel n e mode a), a)
+
+/-- the per-call arguments of a history: mode, weights object, data object (the incidence object is shared by all calls) -/
+structure ConvCall (R : Type) where
+  mode : ConvMode
+  weights : List R
+  data : List R
+
+/-- a history of calls that all receive the SAME incidence object: every call is handed the incidence object as the
+previous call left it.  Returns what every call returned (result, argument objects afterwards) and the incidence object at
+the end. -/
+def e2nHistory (rel : I → Nat → Nat → Bool) (n e : Nat) : List (ConvCall R) → I → List (List R × ConvArgs I R) × I
+  | [], inc => ([], inc)
+  | c :: cs, inc =>
+    let out := e2nCall rel n e c.mode ⟨inc, c.weights, c.data⟩
+    let rest := e2nHistory rel n e cs out.2.inc
+    (out :: rest.1, rest.2)
+
+end
+
+/-! The variant the snapshot comparison of the harness guards against (NOT femio; seeded change C14-6): the weights are applied
+by scaling the stored values of the incidence object in place, so the caller's matrix is real-valued afterwards and the next
+call starts from it. -/
+section
+variable {R : Type} [Zero R] [One R] [Add R] [Mul R] [Div R]
+
+/-- 'mean' weights from a real-valued matrix `A` (`A.multiply(metrics.T)` row-normalised) -/
+def meanWeightV (e : Nat) (A : Nat → Nat → R) (m : Nat → R) (i j : Nat) : R :=
+  A i j * m j * (1 / sumTo e fun j' => A i j' * m j')
+
+/-- in-place 'mean' call: the result and the matrix left in the caller's incidence object -/
+def e2nMeanInPlace (e : Nat) (A : Nat → Nat → R) (m x : Nat → R) : (Nat → R) × (Nat → Nat → R) :=
+  (fun i => sumTo e fun j => meanWeightV e A m i j * x j, meanWeightV e A m)
+
+end
+
 end Femio.C14
